@@ -36,5 +36,7 @@ bool sim_alloc_fault_point(const char *what);
 struct umem_mgr;
 struct umem_mgr *umem_sim_mgr_alloc(unsigned sub_offset);
 unsigned umem_sim_live(void);
+/** called at the beginning of every umem_free */
+extern void (*umem_sim_free_observer)(void);
 uint64_t umem_sim_allocs(void);
 #endif
